@@ -54,8 +54,9 @@ Definition assign (s:stmt) : list aval :=
   | MSSQLAlterNull _ t b => [VType t; VNull b]
   | MSSQLAlterType _ t => [VType t; VNull true]
   | MSSQLDropDefault _ => [VDefault None]
-  | MSSQLAddDefault _ v => [VDefault (Some v)]
-  | DropConstraint _ | AddConstraint _ _ => []
+  | MSSQLAddDefault _ v | AddIdentity _ v | AlterIdentity _ v _ => [VDefault (Some v)]
+  | DropIdentity _ => [VDefault None]
+  | DropConstraint _ | AddConstraint _ _ | AlterIdentityEmpty _ => []
   end.
 
 (* the effect of a statement list when every statement addresses the column correctly *)
@@ -138,20 +139,38 @@ Definition stated_enough (ss:list stmt) (req:request) (ex:existing) (st0:colstat
 (* changes a dialect has no way to express (each raises in the current code) *)
 Definition unsupported (i:c13_in) : bool :=
   let req := i_req i in let ex := i_ex i in
+  (* a Computed / Identity object on either side of the server default *)
+  let comp := _server_default_is_computed (r_default req) (r_dkind req) (e_default ex) (e_dkind ex) in
+  let ident := _server_default_is_identity (r_default req) (r_dkind req) (e_default ex) (e_dkind ex) in
+  let sdg := given (r_default req) in
   match i_d i with
-  | Ddefault | Dsqlite => given (r_comment req)
-  | Dmssql => given (r_comment req)
+  | Ddefault | Dsqlite => given (r_comment req) || (sdg && (comp || ident))
+  | Dmssql => given (r_comment req) || (sdg && (comp || ident))
               || (isSome (r_null req) && negb (isSome (r_type req)) && negb (isSome (e_type ex)))
-  | Dmysql | Dmariadb => negb (isSome (r_type req)) && negb (isSome (e_type ex))
-                         && (isSome (r_name req) || isSome (r_null req) || isSome (r_autoinc req) || given (r_comment req))
-  | Dpostgresql => isSome (r_using req) && negb (isSome (r_type req))
-  | Doracle => false
+  | Dmysql | Dmariadb =>
+      (negb (isSome (r_type req)) && negb (isSome (e_type ex))
+       && (isSome (r_name req) || isSome (r_null req) || isSome (r_autoinc req) || given (r_comment req)))
+      (* no way to alter a generated / identity column, or to make a column one *)
+      || ((comp || ident)
+          && (sdg || isSome (r_name req) || isSome (r_null req) || isSome (r_type req) || isSome (r_autoinc req)
+              || given (r_comment req)
+              (* a DateTime column is always restated with CHANGE, even when nothing is requested *)
+              || _is_mysql_allowed_functional_default (or_else (r_type req) (e_type ex)) (r_default req)))
+  | Dpostgresql => (isSome (r_using req) && negb (isSome (r_type req))) || (sdg && comp)
+  | Doracle => (sdg && comp)
+               (* an identity column cannot be given a plain default through MODIFY ... <identity options> *)
+               || (sdg && ident && negb comp && is_kind KPlain (r_default req) (r_dkind req))
   end.
 
 (* no statement gives an attribute that was not requested a value other than the stated one *)
 Definition no_invention (req:request) (ex:existing) (ss:list stmt) : Prop :=
   forall s v w, In s ss -> In v (assign s) -> req_val req (attr_of v) = None ->
                 stated_val ex (attr_of v) = Some w -> v = w.
+
+(* a statement that restates the type was given one: the type is requested or stated (there is no fall-back
+   reading for a type, so otherwise the restated type is invented) *)
+Definition type_given (req:request) (ex:existing) (ss:list stmt) : Prop :=
+  forall s, In s ss -> In AType (restates s) -> req_val req AType <> None \/ stated_val ex AType <> None.
 
 Definition C13_holds (i:c13_in) (o:iout) : Prop :=
   let req := i_req i in let ex := i_ex i in
@@ -160,6 +179,7 @@ Definition C13_holds (i:c13_in) (o:iout) : Prop :=
   (* every statement is about the operation's schema + table *)
   (forall ts, In ts tss -> fst ts = i_target i) /\
   no_invention req ex ss /\
+  type_given req ex ss /\
   match e with
   | None =>
       unsupported i = false /\
@@ -215,6 +235,10 @@ Definition stmt_eqb (a b:stmt) : bool :=
   | MSSQLSpRename c x, MSSQLSpRename c' y => N.eqb c c' && N.eqb x y
   | DropConstraint x, DropConstraint y => N.eqb x y
   | AddConstraint c x, AddConstraint c' y => N.eqb c c' && N.eqb x y
+  | AddIdentity c x, AddIdentity c' y => N.eqb c c' && N.eqb x y
+  | DropIdentity c, DropIdentity c' => N.eqb c c'
+  | AlterIdentity c x f, AlterIdentity c' y f' => N.eqb c c' && N.eqb x y && Bool.eqb f f'
+  | AlterIdentityEmpty c, AlterIdentityEmpty c' => N.eqb c c' 
   | _, _ => false
   end.
 Definition err_eqb (a b:err) : bool :=
@@ -259,7 +283,7 @@ Definition check_attr_prefix (req:request) (ex:existing) (ss:list stmt) (a:attr)
   match lastset a (all_assign ss) with
   | None => true
   | Some v => match req_val req a with
-              | Some w => aval_eqb v w
+              | Some w => aval_eqb v w || match stated_val ex a with Some u => aval_eqb v u | None => false end
               | None => unrequested_ok ex ss a v
               end
   end.
@@ -273,12 +297,18 @@ Definition check_no_invention (req:request) (ex:existing) (ss:list stmt) : bool 
 
 Definition target_eqb (a b:target) : bool := opt_eqb N.eqb (fst a) (fst b) && N.eqb (snd a) (snd b).
 
+Definition check_type_given (req:request) (ex:existing) (ss:list stmt) : bool :=
+  negb (mem_attr AType (restated_attrs ss))
+  || match req_val req AType with Some _ => true | None => false end
+  || match stated_val ex AType with Some _ => true | None => false end.
+
 Definition check_C13 (i:c13_in) (o:iout) : bool :=
   let req := i_req i in let ex := i_ex i in
   let (tss, e) := o in
   let ss := map snd tss in
   forallb (fun ts => target_eqb (fst ts) (i_target i)) tss &&
   check_no_invention req ex ss &&
+  check_type_given req ex ss &&
   addr_ok (e_name ex) ss &&
   match e with
   | None => negb (unsupported i) && forallb (check_attr req ex ss) all_attrs
@@ -318,7 +348,12 @@ Definition autoinc_honoured (i:c13_in) : bool :=
   end.
 
 (* the class on which the model satisfies the property at full strength *)
-Definition inclass_C13 (i:c13_in) : bool := autoinc_honoured i.
+(* server defaults are plain strings on both sides; Identity / Computed defaults are in the model and in the
+   correspondence, and C13_raises_iff_unsupported covers them, but the effect theorems are stated for plain
+   defaults *)
+Definition plain_defaults (i:c13_in) : bool :=
+  dkind_eqb (r_dkind (i_req i)) KPlain && dkind_eqb (e_dkind (i_ex i)) KPlain.
+Definition inclass_C13 (i:c13_in) : bool := autoinc_honoured i && plain_defaults i.
 
 (* ------------------------------------------------------------------ the existing_* values each dialect needs
    (C13_stated_enough_exact proves that, for the statements the model emits, [stated_enough] is exactly this) *)
